@@ -28,6 +28,18 @@ Definition listed (table : string) (items : list sitem) (f : field) : bool :=
 Definition selected (table : string) (selects : list sitem) (f : field) : bool :=
   match selects with [] => true | _ => listed table selects f end.
 
+(* ---- hypotheses of the theorems, as decidable checks (evaluated on every case) ---------------- *)
+(* own-table qualifiers only ("tbl.col" / "tbl.*" with tbl = the statement's table) *)
+Definition local (table : string) (items : list sitem) : bool :=
+  forallb (fun it => match it with STab t _ | STabStar t => String.eqb t table | _ => true end) items.
+(* distinct columns, distinct field names, no field named like another field's column *)
+Fixpoint nodupb (l : list string) : bool :=
+  match l with [] => true | x :: r => negb (existsb (String.eqb x) r) && nodupb r end.
+Definition wfb (s : schema) : bool :=
+  nodupb (map f_db (col_fields s)) && nodupb (map f_name s)
+  && forallb (fun f => forallb (fun g => negb (has_col f && String.eqb (f_name g) (f_db f))
+                                         || (String.eqb (f_name g) (f_name f))) s) s.
+
 (* ---- what an operation is -------------------------------------------------------------------- *)
 Inductive shape := ShStruct | ShMap | ShSave.
 Definition update_shape (o : op) : option (shape * bool) :=       (* payload shape, hooks run? *)
